@@ -87,6 +87,23 @@ impl OwnedEntry {
     }
 }
 
+/// Registers a directory and all its parents, each one being listed exactly
+/// once in its own parent. The root is the directory with the empty id.
+fn ensure_dir(dirs: &mut HashMap<SharedString, Vec<OwnedEntry>>, id: &SharedString) {
+    if dirs.contains_key(id) {
+        return;
+    }
+    dirs.insert(id.clone(), Vec::new());
+
+    if let Some(parent_id) = DirEntry::Directory(id).parent_id() {
+        let parent_id = SharedString::from(parent_id);
+        ensure_dir(dirs, &parent_id);
+        dirs.entry(parent_id)
+            .or_default()
+            .push(OwnedEntry::Dir(id.clone()));
+    }
+}
+
 /// Register a file of an archive in maps.
 fn register_file(
     file: ZipFile,
@@ -125,18 +142,18 @@ fn register_file(
         let id = id_builder.join();
 
         // Register the file in the maps.
-        let entry = if file.is_file() {
+        if file.is_file() {
             let ext = extension_of(path)?.into();
             let desc = FileDesc(id, ext);
-            files.insert(desc.clone(), index);
-            OwnedEntry::File(desc)
-        } else {
-            if !dirs.contains_key(&id) {
-                dirs.insert(id.clone(), Vec::new());
+            // Make sure the parent directories are known, even if the
+            // archive has no member for them.
+            ensure_dir(dirs, &parent_id);
+            if files.insert(desc.clone(), index).is_none() {
+                dirs.entry(parent_id).or_default().push(OwnedEntry::File(desc));
             }
-            OwnedEntry::Dir(id)
-        };
-        dirs.entry(parent_id).or_default().push(entry);
+        } else {
+            ensure_dir(dirs, &id);
+        }
 
         Some(())
     })()
@@ -238,6 +255,7 @@ where
             let file = archive.by_index(index)?;
             register_file(file, index, &mut files, &mut dirs, &mut id_builder);
         }
+        ensure_dir(&mut dirs, &SharedString::from(""));
 
         Ok(Zip {
             files,
